@@ -1,7 +1,7 @@
 \* Apq over a FULL, evicting LRU + export of the labelled state graph (quick tier).
 \* Texts {q1..q4} all valid, WrongHashes {x:rand}, LRU capacity 1..3 (always fewer
 \* than texts), no malformed / wrong-version forms; histories of any length.
-\* Measured: see notes/C15.md.
+\* Measured: 63 distinct states, 2523 generated = 3 initial + 2520 edges, ~2 s.
 SPECIFICATION Spec
 CONSTANTS
   Texts <- ETexts
